@@ -131,7 +131,7 @@ def make_conn_class(h):
 
         def close(self):
             caller = sys._getframe(1).f_code.co_name
-            if h.armed and h.depth == 0 and caller == 'shutdown' and h.pool._connection is self:
+            if h.armed and h.depth == 0 and caller == 'shutdown' and getattr(h.pool, '_connection', None) is self:
                 h.hook('closemain')     # shutdown(): middle, unlocked region
             if caller in ('_replace', 'return_connection') and self.lock.held == 0 and self.cid is not None \
                     and not self.is_closed and not h.pool.is_shutdown:
@@ -142,6 +142,11 @@ def make_conn_class(h):
 
         def push(self, data):
             self.sent.append(data)
+            if getattr(h, 'hb_active', False) and self._requests:      # the node answers the heartbeat at once
+                from cassandra.protocol import SupportedMessage
+                rid, (cb, _, _) = self._requests.popitem()
+                self.request_ids.append(rid)
+                cb(SupportedMessage(['3.0.0'], {}))
 
         def send_msg(self, msg, request_id, cb, *a, **kw):
             if sys._getframe(1).f_code.co_name == '_query':
@@ -376,7 +381,7 @@ class Harness(object):
                 for m in (self.replay_ints[slot] if slot < len(self.replay_ints) else []):
                     self.cur_ints[slot].append(list(m))
                     self.exec_mop(m)
-            elif self.chooser is not None:
+            elif self.chooser is not None and not (self.cur_kind == 'heartbeat' and slot == 0):
                 for _ in range(self.chooser(self, slot, kind)):
                     m = self.rng.choice(enabled_mops(self, self.rng, nested=True))
                     self.cur_ints[slot].append(list(m))
@@ -391,6 +396,7 @@ class Harness(object):
         """top-level operation; ints given => replay them, else ask the chooser at each hook"""
         self.cur_ints, self.slot = [], 0
         self.replay_ints = ints
+        self.cur_kind = mop[0]
         self.armed = True
         try:
             self.exec_mop(mop)
@@ -503,6 +509,8 @@ class Harness(object):
                 res = self.exec_query_busy(mop)
             elif kind == 'setks':
                 res = self.exec_setks(mop)
+            elif kind == 'heartbeat':
+                res = self.exec_heartbeat(mop)
             elif kind == 'shutdown':
                 self.mark_shutdown_start()
                 self.pool.shutdown()
@@ -533,6 +541,7 @@ class Harness(object):
         real_borrow = self.P.HostConnection.borrow_connection.__get__(self.pool)
         real_return = self.P.HostConnection.return_connection.__get__(self.pool)
         mine = []
+        prev = (self.pool.__dict__.get('borrow_connection'), self.pool.__dict__.get('return_connection'))
         self.pool.borrow_connection = lambda timeout: real_borrow(mop[1])     # _query passes a wall-clock timeout; the history fixes the retries
 
         def returning(connection, stream_was_orphaned=False):     # the stream handed back is no longer outstanding
@@ -548,13 +557,45 @@ class Harness(object):
             rid = fut._query(self.host)
         finally:
             self.query_mine = outer_mine
-            self.pool.__dict__.pop('borrow_connection', None)
-            self.pool.__dict__.pop('return_connection', None)
+            for name, old in zip(('borrow_connection', 'return_connection'), prev):     # a nested _query restores the outer one's wrappers
+                if old is None:
+                    self.pool.__dict__.pop(name, None)
+                else:
+                    self.pool.__dict__[name] = old
             for e in mine:
                 if e in self.inquery:
                     self.inquery.remove(e)
         if rid is not None:
             self.items.append([998])
+        return RES['none']
+
+    def exec_heartbeat(self, mop):
+        """one pass of the REAL ConnectionHeartbeat.run over this pool (the thread object is built without starting it)"""
+        import cassandra.connection as CN
+        self.down_oracle = bool(mop[1])
+        hb = CN.ConnectionHeartbeat.__new__(CN.ConnectionHeartbeat)
+        hb._interval, hb._timeout = 0, 5
+        hb._get_connection_holders = lambda: [self.pool]
+
+        class OnePass(object):
+            waits, stop = 0, False
+
+            def wait(self, t=None):
+                self.waits += 1
+                if self.waits >= 2:
+                    self.stop = True
+
+            def is_set(self):
+                return self.stop
+        hb._shutdown_event = OnePass()
+        for c in self.conns:
+            c.msg_received = False
+        outer = getattr(self, 'hb_active', False)
+        self.hb_active = True
+        try:
+            hb.run()
+        finally:
+            self.hb_active = outer
         return RES['none']
 
     def exec_setks(self, mop):
@@ -633,6 +674,8 @@ def mop_coq(m):
         return '(MQueryBusy %d%%nat %s)' % (m[1], b(m[2]))
     if k == 'setks':
         return '(MSetKs %s)' % b(m[1])
+    if k == 'heartbeat':
+        return '(MHeartbeat %s)' % b(m[1])
     if k == 'shutdown':
         return 'MShutdown'
     if k == 'setsoe':
@@ -680,6 +723,8 @@ def enabled_mops(h, rng, nested=False):
     w(2, ['qbusy', rng.choice([0, 1, 2]), rng.random() < 0.25])
     if p._connection is not None and not p.is_shutdown and p._connection.in_flight < p._connection.max_request_id:
         w(2, ['setks', rng.random() < 0.25])
+        if not (p._connection.is_closed or p._connection._defunct) and not nested:
+            w(2, ['heartbeat', rng.random() < 0.25])
     w(1, ['shutdown'])
     if not p.shutdown_on_error and rng.random() < 0.3:
         w(1, ['setsoe'])
